@@ -194,12 +194,12 @@ Print Assumptions loop_and_inverse_contain_each_point_exactly_once_linked.
 
 (** C04 linked down to C02: the same theorems for the REAL crossing predicate on unit points
     (point := {p | unit_pt p}, sign := RobustSign, triage := the translated triageSign, tangent :=
-    the crosser's early exit).  Only H_STABLE_DET (C02) and H_TANGENT (C03) remain as premises. *)
+    the crosser's early exit).  Only H_TANGENT (C03) remains as a premise (H-STABLE-DET is a closed C02 theorem). *)
 From Coq Require Import Permutation.
 From Geo Require Import Proofs.C02_Float Proofs.C03_Extra Proofs.Link_C02_C03 Proofs.Link_C02_C04 Proofs.C04_Tiling.
 
 Theorem invert_complement_real :
-  H_STABLE_DET -> H_TANGENT ->
+  H_TANGENT ->
   forall (refdir : upoint -> upoint) (origin emptyPt fullPt zeroPt : upoint) (L : loop upoint) (p : upoint),
     brute_contains upoint (u_eov refdir) origin zeroPt (invert upoint emptyPt fullPt L) p
     = negb (brute_contains upoint (u_eov refdir) origin zeroPt L p).
@@ -207,7 +207,7 @@ Proof. exact Link_C02_C04.invert_complement_real. Qed.
 Print Assumptions invert_complement_real.
 
 Theorem polygon_invert_complement_real :
-  H_STABLE_DET -> H_TANGENT ->
+  H_TANGENT ->
   forall (refdir : upoint -> upoint) (origin emptyPt fullPt zeroPt : upoint)
          (P Q : polygon upoint) (L : loop upoint) (rest : list (loop upoint)) (p : upoint),
     Permutation (map fst P) (L :: rest) ->
@@ -218,7 +218,7 @@ Proof. exact Link_C02_C04.polygon_invert_complement_real. Qed.
 Print Assumptions polygon_invert_complement_real.
 
 Theorem polygon_xor_real :
-  H_STABLE_DET -> H_TANGENT ->
+  H_TANGENT ->
   forall (refdir : upoint -> upoint) (origin zeroPt : upoint) (P : polygon upoint) (p : upoint),
     polygon_brute upoint (u_eov refdir) origin zeroPt P p
     = parity upoint (u_eov refdir) origin (sh_ref_inside upoint (polygon_shape upoint zeroPt P))
